@@ -44,127 +44,167 @@ theorem inputsAt_append (inp : Nat → Value) : ∀ (a : List Value) (p : Nat) (
     rw [this]
     exact and_assoc.symm
 
-theorem pollerLoopSt_congr (e e0 : IterEnv) (h1 : e.path = e0.path) (h2 : e.sleepNs = e0.sleepNs) (k : Bool)
-    (s : PollerState) (r : Option Nat) (l : List Value) (p : Nat) :
-    pollerLoopSt e k s r l p = pollerLoopSt e0 k s r l p := by
-  simp [pollerLoopSt, h1, h2]
+theorem pollerArgs_congr (e e0 : IterEnv) (h1 : e.path = e0.path) (h2 : e.sleepNs = e0.sleepNs) (s : PollerState)
+    (r : Option Nat) : pollerArgs e s r = pollerArgs e0 s r := by
+  simp [pollerArgs, h1, h2]
 
-theorem pollerLoopSt_len (e : IterEnv) (k : Bool) (s : PollerState) (r : Option Nat) (l : List Value) (p : Nat) :
-    (pollerLoopSt e k s r l p).env.length = 5 := rfl
+/-- a loop that ended: `()`, this log, this many inputs consumed, no `self` -/
+def LoopDone (r : Res) (l : List Value) (p : Nat) : Prop :=
+  ∃ st : St, r = .val .unit st ∧ st.log = l ∧ st.pos = p ∧ envGet st.env "self" = none
+
+/-- what the whole loop does: the model's `pollRun` -/
+def LoopIs (r : Res) (log : List Value) (pos n : Nat) : Option (PollerState × List Value) → Prop
+  | none => r = .panic
+  | some (_, l) => LoopDone r (log ++ l) (pos + n)
 
 section
-variable (nowNs : Int) (inp : Nat → Value) (refid : Option Nat) (body : List Stmt)
-  (hfw : findWhile Code.fn_chrony_poller__run_clock_error_bound_poller_stmts = some (.path ["keep_running"], body))
+variable (nowNs : Int) (inp : Nat → Value) (refid : Option Nat) (pre : List Stmt) (c : Expr) (body : List Stmt)
+  (hfl : findLoop Code.fn_chrony_poller__run_clock_error_bound_poller_stmts = some (pre, c, body))
   (e0 : IterEnv)
-include hfw
+include hfl
 
-theorem hcond (K : Nat) (hK : 1 ≤ K) (k : Bool) (s : PollerState) (log : List Value) (pos : Nat) :
-    eval K (ctxP nowNs [] inp) frP (.path ["keep_running"]) (pollerLoopSt e0 k s refid log pos)
-    = .val (.bool k) (pollerLoopSt e0 k s refid log pos) := by
-  obtain ⟨J, rfl⟩ : ∃ J, K = J + 1 := ⟨K - 1, by omega⟩
-  simp [rs_eval, pollerLoopSt]
-
-/-- the loop ends when `keep_running` is false -/
-theorem loop_end (K : Nat) (hK : 2 ≤ K) (s : PollerState) (log : List Value) (pos : Nat) :
-    evalWhile K (ctxP nowNs [] inp) frP (.path ["keep_running"]) body (pollerLoopSt e0 false s refid log pos)
-    = .val .unit (pollerLoopSt e0 false s refid log pos) := by
-  obtain ⟨J, rfl⟩ : ∃ J, K = J + 1 := ⟨K - 1, by omega⟩
-  rw [evalWhile_succ, hcond nowNs inp refid body hfw e0 J (by omega)]
-  simp [St.popTo, pollerLoopSt, Res.bind_val]
-
-/-- one turn of the loop -/
-theorem loop_step (x : IterIn) (hx : x.ok e0) (s : PollerState) (log : List Value) (pos : Nat)
+/-- one turn, in the run's environment `e0` -/
+theorem turn (x : IterIn) (hx : x.ok e0) (s : PollerState) (log : List Value) (pos : Nat)
     (hin : inputsAt inp pos ((x.trace refid s).map (pollEvInput x.env))) (K : Nat) (hK : 60 ≤ K) :
-    evalWhile (K + 1) (ctxP nowNs [] inp) frP (.path ["keep_running"]) body (pollerLoopSt e0 true s refid log pos)
-    = if (x.it.step refid s).2 = .panic then .panic
-      else evalWhile K (ctxP nowNs [] inp) frP (.path ["keep_running"]) body
-        (pollerLoopSt e0 (!x.env.isAbort) (x.it.step refid s).1 refid
-          (log ++ (x.trace refid s).map (pollEvValue x.env)) (pos + (x.trace refid s).length)) := by
+    turnIs (ctxP nowNs [] inp) frP c body K
+      (evalWhile (K + 2) (ctxP nowNs [] inp) frP c body (topP nowNs inp pre e0 s refid log pos))
+      (if (x.it.step refid s).2 = .panic then .panic
+       else if x.env.isAbort = true then
+         .done (log ++ (x.trace refid s).map (pollEvValue x.env)) (pos + (x.trace refid s).length)
+       else .next (topP nowNs inp pre e0 (x.it.step refid s).1 refid
+          (log ++ (x.trace refid s).map (pollEvValue x.env)) (pos + (x.trace refid s).length))) := by
   obtain ⟨h1, h2, h3, h4⟩ := hx
-  rw [evalWhile_succ, hcond nowNs inp refid body hfw e0 K (by omega)]
-  simp only [Res.bind_val, if_true]
-  rw [pollerLoopSt_len, ← pollerLoopSt_congr x.env e0 h1 h2,
-    iteration x.env s x.it.asOf x.it.reply x.it.tReply x.it.tGrace refid x.it.file nowNs inp log pos _ body hfw h3 h4
-      hin K hK]
-  simp only [pollerLoopSt_congr x.env e0 h1 h2]
-  rfl
+  have := iteration x.env s x.it.asOf x.it.reply x.it.tReply x.it.tGrace refid x.it.file nowNs inp log pos pre c body
+    hfl h3 h4 hin K hK
+  simp only [topP, pollerArgs_congr x.env e0 h1 h2] at this
+  exact this
 
 theorem loop (last : IterIn) (hlast : last.ok e0) (habort : last.env.isAbort = true) :
     ∀ (xs : List IterIn) (_hxs : ∀ x ∈ xs, x.ok e0 ∧ x.env.isAbort = false) (s : PollerState) (log : List Value)
       (pos : Nat) (_hin : inputsAt inp pos (pollRunInputs refid s (xs ++ [last]))) (N : Nat)
-      (_hN : xs.length + 63 ≤ N),
-      evalWhile N (ctxP nowNs [] inp) frP (.path ["keep_running"]) body (pollerLoopSt e0 true s refid log pos)
-      = match pollRun refid s (xs ++ [last]) with
-        | none => .panic
-        | some (s', l) =>
-          .val .unit (pollerLoopSt e0 false s' refid (log ++ l)
-            (pos + (pollRunInputs refid s (xs ++ [last])).length)) := by
+      (_hN : xs.length + 62 ≤ N),
+      LoopIs (evalWhile N (ctxP nowNs [] inp) frP c body (topP nowNs inp pre e0 s refid log pos)) log pos
+        (pollRunInputs refid s (xs ++ [last])).length (pollRun refid s (xs ++ [last])) := by
   intro xs
   induction xs with
   | nil =>
     intro _ s log pos hin N hN
-    obtain ⟨K, rfl⟩ : ∃ K, N = K + 1 := ⟨N - 1, by simp at hN; omega⟩
+    obtain ⟨K, rfl⟩ : ∃ K, N = K + 2 := ⟨N - 2, by simp at hN; omega⟩
     simp only [List.nil_append, pollRunInputs, inputsAt_append] at hin
-    rw [loop_step nowNs inp refid body hfw e0 last hlast s log pos hin.1 K (by simp at hN; omega)]
+    have T := turn nowNs inp refid pre c body hfl e0 last hlast s log pos hin.1 K (by simp at hN; omega)
     simp only [List.nil_append, pollRun, pollRunInputs]
     by_cases hp : (last.it.step refid s).2 = .panic
-    · simp [hp]
-    · simp only [hp, if_false, habort, Bool.not_true]
-      rw [loop_end nowNs inp refid body hfw e0 K (by simp at hN; omega)]
-      simp
+    · simp only [hp, if_true, turnIs_panic] at T
+      simp [hp, LoopIs, T]
+    · simp only [hp, if_false, habort, if_true, turnIs_done] at T
+      simp only [hp, if_false, Option.map_some, LoopIs, LoopDone, List.append_nil, List.length_append,
+        List.length_map, List.length_nil, Nat.add_zero]
+      exact T
   | cons x xs ih =>
     intro hxs s log pos hin N hN
-    obtain ⟨K, rfl⟩ : ∃ K, N = K + 1 := ⟨N - 1, by simp at hN; omega⟩
+    obtain ⟨K, rfl⟩ : ∃ K, N = K + 2 := ⟨N - 2, by simp at hN; omega⟩
     have hx := hxs x (List.mem_cons_self ..)
     have hxs' : ∀ y ∈ xs, y.ok e0 ∧ y.env.isAbort = false := fun y hy => hxs y (List.mem_cons_of_mem _ hy)
     simp only [List.cons_append, pollRunInputs, inputsAt_append] at hin
-    rw [loop_step nowNs inp refid body hfw e0 x hx.1 s log pos hin.1 K (by simp at hN; omega)]
+    have T := turn nowNs inp refid pre c body hfl e0 x hx.1 s log pos hin.1 K (by simp at hN; omega)
     simp only [List.cons_append, pollRun, pollRunInputs]
     by_cases hp : (x.it.step refid s).2 = .panic
-    · simp [hp]
-    · simp only [hp, if_false, hx.2, Bool.not_false] at hin ⊢
+    · simp only [hp, if_true, turnIs_panic] at T
+      simp [hp, LoopIs, T]
+    · simp only [hp, if_false, hx.2, Bool.false_eq_true, turnIs_next] at T hin
       rw [List.length_map] at hin
-      rw [ih hxs' _ _ _ hin.2 K (by simp at hN; omega)]
-      cases pollRun refid (x.it.step refid s).1 (xs ++ [last]) with
-      | none => rfl
+      have IH := ih hxs' (x.it.step refid s).1 (log ++ (x.trace refid s).map (pollEvValue x.env))
+        (pos + (x.trace refid s).length) hin.2 (K + 1) (by simp at hN; omega)
+      rw [T]
+      simp only [hp, if_false]
+      cases hr : pollRun refid (x.it.step refid s).1 (xs ++ [last]) with
+      | none => rw [hr] at IH; simpa [LoopIs] using IH
       | some p =>
         obtain ⟨s', l⟩ := p
-        simp only [Option.map_some, List.append_assoc, List.length_append, List.length_map]
-        congr 2
-        omega
+        rw [hr] at IH
+        simp only [LoopIs, Option.map_some, List.length_append, List.length_map] at IH ⊢
+        rw [List.append_assoc] at IH
+        rw [Nat.add_assoc] at IH
+        exact IH
 
 /-- a run whose last iteration's `send` fails: the thread panics -/
 theorem loop_fail (bad : IterIn) (hb1 : bad.env.path = e0.path) (hb2 : bad.env.sleepNs = e0.sleepNs)
     (hb3 : bad.env.other ≠ "ReplyBody::Tracking") (v : Value) (hb4 : bad.env.sendRes = .enumv "Err" [v]) :
     ∀ (xs : List IterIn) (_hxs : ∀ x ∈ xs, x.ok e0 ∧ x.env.isAbort = false) (s : PollerState) (log : List Value)
       (pos : Nat) (_hin : inputsAt inp pos (pollRunInputs refid s (xs ++ [bad]))) (N : Nat)
-      (_hN : xs.length + 63 ≤ N),
-      evalWhile N (ctxP nowNs [] inp) frP (.path ["keep_running"]) body (pollerLoopSt e0 true s refid log pos)
-      = .panic := by
+      (_hN : xs.length + 62 ≤ N),
+      evalWhile N (ctxP nowNs [] inp) frP c body (topP nowNs inp pre e0 s refid log pos) = .panic := by
   intro xs
   induction xs with
   | nil =>
     intro _ s log pos hin N hN
-    obtain ⟨K, rfl⟩ : ∃ K, N = K + 1 := ⟨N - 1, by simp at hN; omega⟩
+    obtain ⟨K, rfl⟩ : ∃ K, N = K + 2 := ⟨N - 2, by simp at hN; omega⟩
     simp only [List.nil_append, pollRunInputs, inputsAt_append] at hin
-    rw [evalWhile_succ, hcond nowNs inp refid body hfw e0 K (by simp at hN; omega)]
-    simp only [Res.bind_val, if_true]
-    rw [pollerLoopSt_len, ← pollerLoopSt_congr bad.env e0 hb1 hb2,
-      send_fails bad.env s bad.it.asOf bad.it.reply bad.it.tReply bad.it.tGrace refid bad.it.file v nowNs inp log pos _
-        body hfw hb3 hb4 hin.1 K (by simp at hN; omega)]
+    have := send_fails bad.env s bad.it.asOf bad.it.reply bad.it.tReply bad.it.tGrace refid bad.it.file v nowNs inp log
+      pos pre c body hfl hb3 hb4 hin.1 K (by simp at hN; omega)
+    simp only [topP, pollerArgs_congr bad.env e0 hb1 hb2] at this
+    exact this
   | cons x xs ih =>
     intro hxs s log pos hin N hN
-    obtain ⟨K, rfl⟩ : ∃ K, N = K + 1 := ⟨N - 1, by simp at hN; omega⟩
+    obtain ⟨K, rfl⟩ : ∃ K, N = K + 2 := ⟨N - 2, by simp at hN; omega⟩
     have hx := hxs x (List.mem_cons_self ..)
     have hxs' : ∀ y ∈ xs, y.ok e0 ∧ y.env.isAbort = false := fun y hy => hxs y (List.mem_cons_of_mem _ hy)
     simp only [List.cons_append, pollRunInputs, inputsAt_append] at hin
-    rw [loop_step nowNs inp refid body hfw e0 x hx.1 s log pos hin.1 K (by simp at hN; omega)]
+    have T := turn nowNs inp refid pre c body hfl e0 x hx.1 s log pos hin.1 K (by simp at hN; omega)
     by_cases hp : (x.it.step refid s).2 = .panic
-    · simp [hp]
-    · simp only [hp, if_false, hx.2, Bool.not_false] at hin ⊢
+    · simp only [hp, if_true, turnIs_panic] at T
+      exact T
+    · simp only [hp, if_false, hx.2, Bool.false_eq_true, turnIs_next] at T hin
       rw [List.length_map] at hin
-      exact ih hxs' _ _ _ hin.2 K (by simp at hN; omega)
+      rw [T]
+      exact ih hxs' (x.it.step refid s).1 (log ++ (x.trace refid s).map (pollEvValue x.env))
+        (pos + (x.trace refid s).length) hin.2 (K + 1) (by simp at hN; omega)
 end
+
+/-- the outcome of a function that returns `()` after its loop -/
+def outOf (log : List Value) : Option (PollerState × List Value) → Outcome
+  | none => .panic
+  | some (_, l) => .ok .unit .unit (log ++ l)
+
+/-- from the loop to the function: the result of the function whose loop evaluates to `W` -/
+theorem outcome_of_loop (W : Res) (log : List Value) (pos n : Nat) (o : Option (PollerState × List Value))
+    (h : LoopIs W log pos n o) (G : Res → Outcome)
+    (hpanic : G .panic = .panic)
+    (hval : ∀ st : St, envGet st.env "self" = none → G (.val .unit st) = .ok .unit .unit st.log) :
+    G W = outOf log o := by
+  cases o with
+  | none => simp only [LoopIs] at h; rw [h, hpanic]; rfl
+  | some p =>
+    obtain ⟨s', l⟩ := p
+    obtain ⟨st, rfl, h1, -, h3⟩ := h
+    rw [hval st h3, h1]; rfl
+
+set_option hygiene false in
+/-- from the loop lemma `L` (normalised with the same simp set as the goal) to the function: name the loop's result,
+    split the model's run -/
+macro "finish_run" : tactic => `(tactic| (
+  generalize hW : evalWhile _ _ _ _ _ _ = W
+  -- the fuel the loop is entered with depends on how many statements precede it: take the instance of `L` that fits
+  first
+    | (have h := L (J + 3) (by omega); rw [hW] at h)
+    | (have h := L (J + 4) (by omega); rw [hW] at h)
+    | (have h := L (J + 5) (by omega); rw [hW] at h)
+    | (have h := L (J + 6) (by omega); rw [hW] at h)
+    | (have h := L (J + 7) (by omega); rw [hW] at h)
+    | (have h := L (J + 8) (by omega); rw [hW] at h)
+    | (have h := L (J + 9) (by omega); rw [hW] at h)
+    | (have h := L (J + 10) (by omega); rw [hW] at h)
+    | (have h := L (J + 11) (by omega); rw [hW] at h)
+    | (have h := L (J + 12) (by omega); rw [hW] at h)
+    | (have h := L (J + 13) (by omega); rw [hW] at h)
+    | (have h := L (J + 14) (by omega); rw [hW] at h)
+  generalize hR : pollRun _ _ (xs ++ [last]) = R at h ⊢
+  cases R with
+  | none => simp only [LoopIs] at h; subst h; simp [rs_eval]
+  | some p =>
+    obtain ⟨s', l⟩ := p
+    obtain ⟨st, rfl, h1, h2, h3⟩ := h
+    simp [rs_eval, h1, h3]))
 
 set_option maxRecDepth 8000 in
 /-- `run_clock_error_bound_poller` on a run that ends with `Ok(ThreadAbort)` -/
@@ -178,23 +218,17 @@ theorem poller_run (nowNs : Int) (inp : Nat → Value) (refid : Option Nat) (e0 
       | none => .panic
       | some (_, l) => .ok .unit .unit l := by
   obtain ⟨J, rfl⟩ : ∃ J, F = J + 10 := ⟨F - 10, by omega⟩
-  obtain ⟨c, body, hfw⟩ : ∃ c body,
-      findWhile Code.fn_chrony_poller__run_clock_error_bound_poller_stmts = some (c, body) := by
+  obtain ⟨pre, c, body, hfl⟩ : ∃ pre c body,
+      findLoop Code.fn_chrony_poller__run_clock_error_bound_poller_stmts = some (pre, c, body) := by
     simp [rs_eval, rs_code]
-  have hfw0 := hfw
-  simp [rs_eval, rs_code] at hfw
-  obtain ⟨rfl, rfl⟩ := hfw
-  have L := fun N hN => loop nowNs inp refid _ hfw0 e0 last hlast habort xs hxs s [] 0 hin N hN
-  simp only [ctxP, linuxUses_eq] at L ⊢
+  have L := fun N hN => loop nowNs inp refid pre c body hfl e0 last hlast habort xs hxs s [] 0 hin N hN
+  simp [rs_eval, rs_code] at hfl
+  obtain ⟨rfl, rfl, rfl⟩ := hfl
+  simp only [ctxP, topP, linuxUses_eq] at L ⊢
   cases refid <;>
-  · simp [rs_eval, pollerLoopSt, contextValue, pollerValue, optPhcValue] at L
+  · simp [rs_eval, rs_code, pollerArgs, contextValue, pollerValue, optPhcValue] at L
     simp [rs_eval, rs_code, contextValue, pollerValue, optPhcValue]
-    rw [L (J + 6) (by omega)]
-    cases pollRun _ s (xs ++ [last]) with
-    | none => simp [rs_eval]
-    | some p =>
-      obtain ⟨s', l⟩ := p
-      simp [rs_eval]
+    finish_run
 
 set_option maxRecDepth 8000 in
 /-- `run_clock_error_bound_poller` on a run whose last iteration's `send` fails -/
@@ -207,18 +241,27 @@ theorem poller_run_fail (nowNs : Int) (inp : Nat → Value) (refid : Option Nat)
       [contextValue "ChannelId::ClockErrorBoundPoller", pollerValue s, optPhcValue e0.path refid, .duration e0.sleepNs]
     = .panic := by
   obtain ⟨J, rfl⟩ : ∃ J, F = J + 10 := ⟨F - 10, by omega⟩
-  obtain ⟨c, body, hfw⟩ : ∃ c body,
-      findWhile Code.fn_chrony_poller__run_clock_error_bound_poller_stmts = some (c, body) := by
+  obtain ⟨pre, c, body, hfl⟩ : ∃ pre c body,
+      findLoop Code.fn_chrony_poller__run_clock_error_bound_poller_stmts = some (pre, c, body) := by
     simp [rs_eval, rs_code]
-  have hfw0 := hfw
-  simp [rs_eval, rs_code] at hfw
-  obtain ⟨rfl, rfl⟩ := hfw
-  have L := fun N hN => loop_fail nowNs inp refid _ hfw0 e0 bad hb1 hb2 hb3 v hb4 xs hxs s [] 0 hin N hN
-  simp only [ctxP, linuxUses_eq] at L ⊢
+  have L := fun N hN => loop_fail nowNs inp refid pre c body hfl e0 bad hb1 hb2 hb3 v hb4 xs hxs s [] 0 hin N hN
+  simp [rs_eval, rs_code] at hfl
+  obtain ⟨rfl, rfl, rfl⟩ := hfl
+  simp only [ctxP, topP, linuxUses_eq] at L ⊢
   cases refid <;>
-  · simp [rs_eval, pollerLoopSt, contextValue, pollerValue, optPhcValue] at L
+  · simp [rs_eval, rs_code, pollerArgs, contextValue, pollerValue, optPhcValue] at L
     simp [rs_eval, rs_code, contextValue, pollerValue, optPhcValue]
-    rw [L (J + 6) (by omega)]
+    generalize hW : evalWhile _ _ _ _ _ _ = W
+    first
+      | (have h := L (J + 3) (by omega); rw [hW] at h)
+      | (have h := L (J + 4) (by omega); rw [hW] at h)
+      | (have h := L (J + 5) (by omega); rw [hW] at h)
+      | (have h := L (J + 6) (by omega); rw [hW] at h)
+      | (have h := L (J + 7) (by omega); rw [hW] at h)
+      | (have h := L (J + 8) (by omega); rw [hW] at h)
+      | (have h := L (J + 9) (by omega); rw [hW] at h)
+      | (have h := L (J + 10) (by omega); rw [hW] at h)
+    subst h
     simp [rs_eval]
 
 set_option maxRecDepth 8000 in
@@ -237,25 +280,18 @@ theorem entry_run (nowNs : Int) (inp : Nat → Value) (refid : Option Nat) (e0 :
       | none => .panic
       | some (_, l) => .ok .unit .unit (evInstantNow (instant tStart) :: l) := by
   obtain ⟨J, rfl⟩ : ∃ J, F = J + 20 := ⟨F - 20, by omega⟩
-  obtain ⟨c, body, hfw⟩ : ∃ c body,
-      findWhile Code.fn_chrony_poller__run_clock_error_bound_poller_stmts = some (c, body) := by
+  obtain ⟨pre, c, body, hfl⟩ : ∃ pre c body,
+      findLoop Code.fn_chrony_poller__run_clock_error_bound_poller_stmts = some (pre, c, body) := by
     simp [rs_eval, rs_code]
-  have hfw0 := hfw
-  simp [rs_eval, rs_code] at hfw
-  obtain ⟨rfl, rfl⟩ := hfw
-  have L := fun N hN => loop nowNs inp refid _ hfw0 e0 last hlast habort xs hxs (Poller.init tStart)
+  have L := fun N hN => loop nowNs inp refid pre c body hfl e0 last hlast habort xs hxs (Poller.init tStart)
     [evInstantNow (instant tStart)] 1 hin N hN
-  simp only [ctxP, linuxUses_eq] at L ⊢
+  simp [rs_eval, rs_code] at hfl
+  obtain ⟨rfl, rfl, rfl⟩ := hfl
+  simp only [ctxP, topP, linuxUses_eq] at L ⊢
   simp [instantLo, GRACE_NS] at ht
   cases refid <;>
-  · simp [rs_eval, pollerLoopSt, contextValue, pollerValue, optPhcValue, Poller.init, GRACE_NS, hsleep] at L
+  · simp [rs_eval, rs_code, pollerArgs, contextValue, pollerValue, optPhcValue, Poller.init, GRACE_NS, hsleep] at L
     simp [rs_eval, rs_code, contextValue, pollerValue, optPhcValue, Poller.init, GRACE_NS, h0, ht]
-    rw [L (J + 10) (by omega)]
-    generalize pollRun _ _ (xs ++ [last]) = R
-    cases R with
-    | none => simp [rs_eval]
-    | some p =>
-      obtain ⟨s', l⟩ := p
-      simp [rs_eval]
+    finish_run
 
 end ClockBound.Rs.PollerProof
